@@ -14,7 +14,8 @@ from hedmon.oracle import hedparse
 CAT_COLS = ["trial_type", "response", "stim_file", "cond", "block", "stim-file", "Cond2", "resp-hand_2"]
 VAL_COLS = ["rt", "score", "contrast", "rt-2", "Score_B"]
 IGN_COLS = ["notes", "sample"]
-CAT_KEYS = ["go", "stop", "left", "right", "k1", "k2", "3", "4.0"]
+# (the one-letter keys and "n/" are pieces of the reserved key "n/a" and are ordinary keys themselves)
+CAT_KEYS = ["go", "stop", "left", "right", "k1", "k2", "3", "4.0", "a", "n", "n/", "/a"]
 NA = "n/a"
 
 
@@ -109,12 +110,14 @@ def gen_bundle(gen, rng, n_refs=None, nrows=None, with_onset=None, valid_cells=T
     if onset:
         columns = ["onset"] + columns
     n = nrows or rng.randrange(1, 7)
+    # mostly early, coarsely spaced times; sometimes late in a long recording and finely spaced
+    t0, dt = rng.choice([(0.0, 0.5)] * 8 + [(5000.0, 0.0001), (86400.0, 0.25)])
     rows = []
     for r in range(n):
         row = []
         for c in columns:
             if c == "onset":
-                row.append(repr(float(r + 1) * 0.5))
+                row.append(repr(round(t0 + float(r + 1) * dt, 6)))
             elif c == "HED":
                 q = rng.random()
                 if q < 0.25:
